@@ -57,6 +57,7 @@ def host_cases(ctx: Ctx, pairs):
                 c[2] = ["host_is_trusted", ht.APIS[1 + n % 3]]
     cases += g
     cases += ht.entrypoint_cases(ctx.quick)    # every entry point x option combination x environ shape
+    cases += ht.boundary_list_cases(ctx.quick)  # ... with the configured-but-empty / one-element / degenerate lists
     cases += ht.codepoint_cases(rng, _n(150, 5000, ctx.quick), 0x100 if ctx.quick else 0x500)
     return cases, n_model
 
@@ -64,7 +65,7 @@ def host_cases(ctx: Ctx, pairs):
 def judge_hosts(ctx: Ctx, cases, kind="host"):
     results = pmap(ht.host_case, cases, workers=ctx.workers, chunksize=64)
     lines = []
-    seen = {"bool_true": 0, "bool_false": 0, "value": 0, "SecurityError": 0, "url_value": 0, "url_refused": 0}
+    seen = {"bool_true": 0, "bool_false": 0, "value": 0, "SecurityError": 0, "url_value": 0, "url_refused": 0, "empty_list_refused": 0}
     for t, (case, lns) in enumerate(zip(cases, results)):
         for i, ln in enumerate(lns):
             ln["t"], ln["i"] = t, i
@@ -78,6 +79,9 @@ def judge_hosts(ctx: Ctx, cases, kind="host"):
                 seen["SecurityError"] += 1
                 # (entry point + options, environ shape) that refused an untrusted host
                 ctx.nontrivial.add(("entry", ln["api"], ln["scheme"], ln["present"], _txt(ln["srvport"])))
+            if not ln["list"] and (r["exc"] == "SecurityError" or (r["kind"] == "bool" and not r["b"])):
+                seen["empty_list_refused"] += 1
+                ctx.nontrivial.add(("emptylist", ln["api"], ln.get("form")))
             if ln.get("vkind") == "url":
                 seen["url_value" if r["kind"] == "value" else "url_refused"] += 1
         ctx.count(len(lns))
@@ -195,6 +199,8 @@ def scripts_code_to_spec(ctx: Ctx, rng):
         steps.append([{"cmd": "pinauth", "secret": "right", "cookie": "valid", "frame": "unknown", "pin": "wrong"}, ht.TRUSTED_REP, 0])
         steps.append([ht.ATTEMPT["right"], ht.TRUSTED_REP, 1])
         scripts.append({"evalex": True, "pin_on": True, "steps": steps, "src": "pinseq"})
+    # (e) configuration histories: app.pin = B / A / None, app.trusted_hosts = [...], app.evalex = b between requests
+    scripts += ht.config_history_scripts(rng, _n(60, 3000, q))
     # (d) far beyond the lock-out: "until the process restarts"
     for n_stale in ((250,) if q else (244, 245, 250, 520)):
         full = ("wrong",) * 11 + ("stale",) * n_stale + ("right", "wrong", "right")
@@ -207,14 +213,19 @@ def judge_scripts(ctx: Ctx, scripts, kind="dbg"):
     results = pmap(ht.run_script, scripts, workers=ctx.workers, chunksize=8)
     lines = []
     seen = {"eval_ran": 0, "console": 0, "auth_true": 0, "exhausted": 0, "pin_logged": 0, "refused_400": 0, "cookie_set": 0,
-            "absent_host_refused": 0}
+            "absent_host_refused": 0, "config_steps": 0, "old_pin_cookie_refused": 0}
     for t, (sc, lns) in enumerate(zip(scripts, results)):
         lns[0]["t"] = t
         lines.append(lns[0])
         for i, ln in enumerate(lns[1:]):
             ln["t"], ln["i"] = t, i
             lines.append(ln)
+            if ln["op"] == "set":
+                seen["config_steps"] += 1
+                continue
             o = ln["o"]
+            seen["old_pin_cookie_refused"] += (ln["cookie"] in ("valid", "validB") and ln["cmd"] == "eval"
+                                               and sc["src"] == "config" and not o["eval_ran"] and o["app_called"])
             for k in ("eval_ran", "console", "exhausted", "pin_logged", "cookie_set"):
                 seen[k] += bool(o[k])
             seen["auth_true"] += o["auth"] == "true"
@@ -224,7 +235,7 @@ def judge_scripts(ctx: Ctx, scripts, kind="dbg"):
                 ctx.nontrivial.add(("dbg", sc["evalex"], sc["pin_on"], ln["cmd"], ln["secret"], ln["cookie"], ln["frame"],
                                     ln["pin"], _txt(ln["host"]) if ln["hpresent"] else None, min(ln["cnt"], 12)))
         ctx.count(len(lns) - 1)
-        if t % 997 == 3 and len(lns) > 1:
+        if t % 997 == 3 and len(lns) > 1 and lns[-1]["op"] == "req":
             ln = lns[-1]
             ctx.sample({"debugger": {"evalex": sc["evalex"], "pin_on": sc["pin_on"], "source": sc["src"], "steps": len(lns) - 1},
                         "last_request": {k: ln[k] for k in ("cmd", "secret", "cookie", "frame", "pin")},
@@ -291,7 +302,8 @@ def judge_proxy(ctx: Ctx, cases, kind="pfix"):
 
 # --------------------------------------------------------------------------- entry points
 # the committed models must pass; the model of the code as pinned and three hand-broken variants must fail
-MODELS = [("MCHostTrust", "MCH_quick", None), ("MCDebugger", "MCD_fixed", None), ("MCProxyFix", "MCP_quick", None)]
+MODELS = [("MCHostTrust", "MCH_quick", None), ("MCDebugger", "MCD_fixed", None), ("MCDebugger", "MCD_cfg_fixed", None),
+          ("MCProxyFix", "MCP_quick", None)]
 MODELS_THOROUGH = [("MCHostTrust", "MCH_thorough", None), ("MCHostTrust", "MCH_lists2", None), ("MCHostTrust", "MCH_big", None),
                    ("MCProxyFix", "MCP_full", None), ("MCProxyFix", "MCP_ignored", None)]
 BROKEN = [("MCHostTrust", "MCH_orig", "ImplMeetsContract"),   # host_is_trusted as pinned (F14, F15)
@@ -299,6 +311,8 @@ BROKEN = [("MCHostTrust", "MCH_orig", "ImplMeetsContract"),   # host_is_trusted 
           ("MCDebugger", "MCD_mut_nohost", "ContractHolds"),
           ("MCDebugger", "MCD_mut_nosecret", "ContractHolds"),
           ("MCDebugger", "MCD_mut_nopin", "ContractHolds"),
+          # the hash of the PIN memoised on first use and not invalidated by the pin setter
+          ("MCDebugger", "MCD_cfg_mut_memohash", "EvalGate"),
           ("MCProxyFix", "MCP_left", "ExtraLeftIrrelevant"),        # a table that counts from the left (client side)
           # the list parsing before repo fix 2d7315b (quoted strings): a client quote merges the proxies' values
           ("MCProxyFix", "MCP_pinned", "ExtraLeftSameVerdict"),
